@@ -60,9 +60,18 @@ void residue_fill(unsigned char *buf, size_t capacity, int pattern)
 }
 
 ssize_t __wrap_sendto(int fd, const void *buf, size_t len, int flags, const struct sockaddr *to, socklen_t tolen);
+/* optional hooks (used by h_handshake.c): called after capturing a datagram / instead of the
+   default select() behaviour */
+void (*wire_sendto_hook)(int fd, const void *buf, size_t len, const struct sockaddr *to, socklen_t tolen);
+int (*wire_select_hook)(int nfds, fd_set *rfds, struct timeval *tv);
+
 ssize_t __wrap_sendto(int fd, const void *buf, size_t len, int flags, const struct sockaddr *to, socklen_t tolen)
 {
 	(void)flags;
+	if (wire_sendto_hook) {
+		wire_sendto_hook(fd, buf, len, to, tolen);
+		return len;
+	}
 	if (cap_count < CAPMAX) {
 		struct capture *c = &cap[cap_count++];
 		c->fd = fd;
@@ -183,5 +192,19 @@ unsigned int __wrap_sleep(unsigned int s);
 unsigned int __wrap_sleep(unsigned int s)
 {
 	verif_now += s;
+	return 0;
+}
+
+int __wrap_select(int nfds, fd_set *rfds, fd_set *wfds, fd_set *efds, struct timeval *tv);
+int __wrap_select(int nfds, fd_set *rfds, fd_set *wfds, fd_set *efds, struct timeval *tv)
+{
+	(void)wfds; (void)efds;
+	if (wire_select_hook)
+		return wire_select_hook(nfds, rfds, tv);
+	/* default: time out at once, advancing the virtual clock */
+	if (tv)
+		verif_now += tv->tv_sec;
+	if (rfds)
+		FD_ZERO(rfds);
 	return 0;
 }
